@@ -55,6 +55,9 @@ def check(ctx):
   _c14.error_stack_kind(ctx, 'C01.R1')
   r7(ctx)
   r8(ctx)
+  from . import c05 as _c05
+  ctx.rule('C05.R1', 'shared with C05: the balancer open completes whenever the server set provider answered, an empty member list included (every call is chained behind that open result before its timer is armed)')
+  _c05.load_success_opens(ctx, 'C01.R8')
   sch = prog.func('scales/timer_queue.py', 'TimerQueue.Schedule')
   c10.r1(ctx, sch)
   tq = prog.cls('scales/timer_queue.py', 'TimerQueue')
